@@ -57,6 +57,10 @@ fn parse_name(name: &str) -> (String, i64) {
 }
 
 fn sys_event(c: &Call) -> Value {
+    if c.kind == "mark" {
+        // the drop of the store inside a reopen has returned: what follows is the open
+        return json!({"ev": "closed"});
+    }
     let (kind, id) = parse_name(&c.file);
     json!({"ev": "sys", "call": c.kind, "kind": kind, "id": id, "file": c.file, "n": c.n, "res": c.res,
            "errno": c.errno, "injected": c.injected,
@@ -322,6 +326,7 @@ fn do_op(
         }
         "reopen" => {
             drop(kv.take());
+            shim::mark("closed");
             match open_store(dir, cfg, Knobs { concurrency: 1, cache: 4 }) {
                 Ok(n) => {
                     *h = n.get_handle();
